@@ -369,6 +369,12 @@ def cases(tier, seed):
             fam, dev = pairs[(3 * i + 2 * k + 2) % len(pairs)]
             yield {"kind": "img", "family": fam, "dev": dev, "flags": 0xC, "v": k,
                    "force": {"mac": ml, "dek_bits": (128, 192, 256)[i % 3], "dek_supplied": bool(i % 2), "nonce": [None, 11, 12, 13][(i + k) % 4]}}
+        # the largest applications a 13-byte nonce can serve (CCM keeps a 2-byte length: the encrypted data stay below 64 KiB),
+        # where image offset + application cross 64 KiB although the application itself does not
+        for i, ln in enumerate((0xFFEF, 0xFFE0, 0xF000 + 16 * k + 1, 0xE000 + 0x100 * k)):
+            fam, dev = pairs[(13 * i + 5 * k + 6) % len(pairs)]
+            yield {"kind": "img", "family": fam, "dev": dev, "flags": 0xC, "v": k,
+                   "force": {"app_len": ln, "nonce": 13, "mac": (16, 8, 12, 4)[i], "dek_supplied": bool((i + k) % 2)}}
         # CLI
         for i, form in enumerate(("yaml", "bd", "yaml")):
             fam, dev = pairs[(11 * i + k + 4) % len(pairs)]
@@ -609,8 +615,24 @@ def build_inputs(p: Plan, ctx, wd: str) -> dict:  # noqa: C901
         k = p.srk + 1
         absolute = p.form_abs
 
+        # a third of the authenticated builds take their certificates and keys from ROTATING slots: fixed file names (one per
+        # role) in a folder of this worker process that hold another certificate each time - a project whose certificates
+        # were re-issued under the same names, built again by the same process
+        slotdir = os.path.join(ctx.workdir, "rotating_hab_pki")
+        p.slot = rng.random() < 0.34
+
         def path(rel):
-            return os.path.join(sd, rel) if absolute else rel
+            if not p.slot:
+                return os.path.join(sd, rel) if absolute else rel
+            import shutil
+
+            d, name = rel.split("/")
+            role = "CSF" if name.startswith(p.csf_stem) else "IMG"
+            for sub, kindname in (("crts", "crt"), ("keys", "key")):
+                os.makedirs(os.path.join(slotdir, sub), exist_ok=True)
+                shutil.copyfile(os.path.join(sd, sub, f"{name.rsplit('_', 1)[0]}_{kindname}.pem"), os.path.join(slotdir, sub, f"{role}_slot_{kindname}.pem"))
+            ctx.count("rotating_pki_slot_paths")
+            return os.path.join(slotdir, d, f"{role}_slot_{'crt' if d == 'crts' else 'key'}.pem")
 
         def key_opts(prefix, stem):
             if p.key_src == "file":
